@@ -1,3 +1,5 @@
+-- TIE-PROPS: C01 C18 C19
+-- TIE-SECTION: extract_sorter
 import PytaskProofs.Lemmas.SorterGenRefines
 /-!
 # SorterTie — the hand-written scheduler model M2 equals the scheduler computed from the source
